@@ -308,7 +308,21 @@ func (d *downSender) AppendHeaders(ctx context.Context, headers api.HeaderMap, e
 	return nil
 }
 func (d *downSender) AppendData(ctx context.Context, data buffer.IoBuffer, end bool) error {
-	d.h.add(Rec{Kind: "down.data", End: end})
+	// whose body is it?  upstream responses carry "resp", a filter's direct response "direct", a route's direct response "body"
+	owner := "?"
+	if data != nil {
+		switch data.String() {
+		case "resp":
+			owner = "up"
+		case "direct":
+			owner = "direct"
+		case "body":
+			owner = "hijack"
+		default:
+			owner = "?" + data.String()
+		}
+	}
+	d.h.add(Rec{Kind: "down.data", End: end, Aux: owner})
 	if end {
 		d.BaseStream.DestroyStream()
 	}
@@ -497,6 +511,14 @@ func (f *sendFilter) Append(ctx context.Context, headers api.HeaderMap, buf buff
 		v = vs[n]
 	}
 	h.add(Rec{Kind: "filter.send", K: f.idx, Aux: v})
+	// a send filter answers through the receive handler it kept (as the transcoder filter does on a transcoding failure)
+	var rh api.StreamReceiverFilterHandler
+	h.mu.Lock()
+	if len(h.handlers) > 0 {
+		rh = h.handlers[0]
+	}
+	h.mu.Unlock()
+	code := h.spec.Filters[f.idx].Code
 	if d := h.spec.Filters[f.idx].DelayMs; d > 0 {
 		h.mu.Lock()
 		first := !h.slept[f.idx]
@@ -513,6 +535,17 @@ func (f *sendFilter) Append(ctx context.Context, headers api.HeaderMap, buf buff
 		return api.StreamFilterStop
 	case "term":
 		return api.StreamFiltertermination
+	case "hijack":
+		if rh != nil {
+			rh.SendHijackReply(code, protocol.CommonHeader(map[string]string{"x-hijacked": "1"}))
+		}
+		return api.StreamFilterStop
+	case "direct":
+		if rh != nil {
+			hdr := protocol.CommonHeader(map[string]string{"x-status": strconv.Itoa(code), "x-direct": "1"})
+			rh.SendDirectResponse(hdr, buffer.NewIoBufferString("direct"), nil)
+		}
+		return api.StreamFilterStop
 	}
 	return api.StreamFilterContinue
 }
